@@ -409,8 +409,8 @@ _RULE = ("Hypothesis draws a 2-D image (extents 1..40 per axis, one third forced
          "/ OpticalImage; non-trivial = extent not divisible by the count, or overlap > 0, or "
          "non-power-of-two dimensions; distinct = (shape, counts, dimensions, overlap, origin, payload)")
 
-_N = {"quick": 1300, "thorough": 37500}
-_SH = {"quick": 4, "thorough": 16}
+_N = {"quick": 1500, "thorough": 30000}
+_SH = {"quick": 3, "thorough": 16}
 
 PROP = Prop(
     pid="C19",
